@@ -91,6 +91,7 @@ class C14(Prop):
     id = 'C14'
     k2_mask = {('top', 'now'), ('top', 'next_active'), ('arr', 'created'), ('arr', 'accepted'), ('top', 'exit_n'), ('top', 'exit_completed')}      # the slice of the engine state / records this property reads (DESIGN 7, table of slices)
     k2_frames = 40
+    k2_invs2 = {'clk2', 'cnt2'}         # the stage-2 T2 invariants (Inv/AllRun2.invs2_b) this property answers for on real snapshots
     k2_invs = {'hzn', 'clk', 'cnt'}          # the T2 invariants (Inv/AllRun.invs_b) this property answers for on real snapshots
     num = 14
     exc_is_violation = True
